@@ -75,8 +75,10 @@ def make_msg(data, as_file=False):
     return msg
 
 
-def run_acceptor_case(L, P, lengths):
-    case = {'role': 'acceptor', 'L': L, 'P': P, 'lengths': lengths}
+def run_acceptor_case(L, P, lengths, via_hook=False):
+    """via_hook: the entity is configured with 65536 and its on_association_request hook gives this association
+    its own limit L (a per-peer limit, set on the association object the hook receives)."""
+    case = {'role': 'acceptor', 'L': L, 'P': P, 'lengths': lengths, 'via_hook': via_hook}
     datas = [None if n is None else dg.patterned(n, 1) for n in lengths]
     sent_records = []
 
@@ -86,7 +88,15 @@ def run_acceptor_case(L, P, lengths):
         asce.send(make_msg(datas[i], as_file=i % 2 == 1), ctx.id)
         sent_records.append((i, asce.dul.sent[before:]))
     service.sop_classes = [SOP]
-    ae = fd.make_ae('SRV', [TS], L)
+    if via_hook:
+        from pynetdicom2 import applicationentity
+
+        class PerPeer(applicationentity.AE):
+            def on_association_request(self, asce, assoc):
+                asce.max_pdu_length = L
+        ae = fd.make_ae('SRV', [TS], 65536, cls=PerPeer)
+    else:
+        ae = fd.make_ae('SRV', [TS], L)
     try:
         ae.add_scp(service)
 
@@ -94,7 +104,7 @@ def run_acceptor_case(L, P, lengths):
             dul.push_pdu(fd.rq_spec([(1, SOP, [TS])], P))
             for i in range(len(datas)):
                 dul.push_msg({0x0002: SOP, 0x0100: 0x0020, 0x0110: i, 0x0700: 0}, b'\x08\x00\x52\x00\x06\x00\x00\x00STUDY ', 1)
-        acc, fac, exc = fd.run_acceptor(ae, [plan], L)
+        acc, fac, exc = fd.run_acceptor(ae, [plan], 65536 if via_hook else L)
     finally:
         ae.server_close()
     if exc is not None:
@@ -197,7 +207,8 @@ def run_pairs(ctx, job):
     warnings.simplefilter('ignore')
     for (L, P) in job['pairs']:
         lengths = data_lengths(P, L)
-        for role, fn in (('acceptor', run_acceptor_case), ('requestor', run_requestor_case)):
+        for role, fn in (('acceptor', run_acceptor_case), ('requestor', run_requestor_case),
+                         ('acceptor-hook', lambda l, p, ln: run_acceptor_case(l, p, ln, via_hook=True))):
             try:
                 fn(L, P, lengths)
             except Violation as v:
@@ -228,7 +239,7 @@ def run(ctx):
     warnings.simplefilter('ignore')
     ctx.exhaustive = True
     ctx.rule = ('exhaustive grid: (own configured maximum, peer-announced maximum) over %d x %d boundary values '
-                '(0 = no limit .. 2^32-1) x {acceptor, requestor} x data lengths {none, 1, f-1, f, f+1, 3f+1} around '
+                '(0 = no limit .. 2^32-1) x {acceptor, acceptor whose limit is set per peer in the on_association_request hook, requestor} x data lengths {none, 1, f-1, f, f+1, 3f+1} around '
                 'the fragment size the peer\'s value implies (capped at %d bytes); plus Hypothesis pairs; after real '
                 'negotiation through AssociationAcceptor.handle / request_association every message (data set given as bytes or as a file-like object, alternating) is sent with '
                 'Association.send; non-trivial = the two values differ or one is 0'
@@ -252,5 +263,7 @@ def replay(case):
         for key, ent in sorted(sub.failures.items()):
             raise Violation(key, ent['what'], ent['case'])
         return
-    fn = run_acceptor_case if case['role'] == 'acceptor' else run_requestor_case
-    fn(case['L'], case['P'], case['lengths'])
+    if case['role'] == 'acceptor':
+        run_acceptor_case(case['L'], case['P'], case['lengths'], case.get('via_hook', False))
+    else:
+        run_requestor_case(case['L'], case['P'], case['lengths'])
